@@ -103,7 +103,8 @@ type image struct {
 	pl       bool // power-loss image: un-synced WAL suffixes dropped
 	desc     string
 	opLine   string // durable state as the model sees it
-	class    string // finding class this durable state belongs to ("" = recovery must be exact)
+	window   bool   // the durable state is outside the model's exactness condition (safeDurable)
+	class    string // known finding class this durable state belongs to ("" = none: recovery must be exact)
 }
 
 type recorder struct {
@@ -142,6 +143,30 @@ type recorder struct {
 	plCnt     int
 	orderViol []string // write-path order violations seen on the trace (reported with the history)
 	msts      []string // measurements of this history, index = measurement number of the model
+	// A flush commits its measurements from goroutines started in Go map order: the recorder lets
+	// them through one after the other, in measurement order, so that the sequence of images is a
+	// function of the history. flushMsts = measurements with rows in the table being flushed.
+	cond      *sync.Cond
+	flushMsts []int
+	initCnt   map[int]int // .init files created by the measurement in this flush
+	renDone   map[int]int // of which renamed into place
+	gateOff   bool
+}
+
+// gateBlocked: some measurement that goes before x in this flush has not committed all its files.
+func (rc *recorder) gateBlocked(x int) bool {
+	if rc.gateOff {
+		return false
+	}
+	for _, y := range rc.flushMsts {
+		if y >= x {
+			break
+		}
+		if !(rc.renDone[y] >= 1 && rc.renDone[y] == rc.initCnt[y]) {
+			return true
+		}
+	}
+	return false
 }
 
 func (rc *recorder) mstNo(rel string) int {
@@ -255,7 +280,7 @@ func relocateTxn(imgRoot, origRoot string) {
 // durable renders the durable state of an image directory for the model:
 //
 //	vis=<gen>:<o|u>,...   wal=<part>:<id>.<id>|<part>:...   torn=<id|->
-func (rc *recorder) durable(dir string, tornID int, syncedOnly bool) (string, string) {
+func (rc *recorder) durable(dir string, tornID int, syncedOnly bool) (string, bool, string) {
 	var vis []string
 	visGen := map[int]bool{}
 	visFile := map[string]bool{}
@@ -414,7 +439,50 @@ func (rc *recorder) durable(dir string, tornID int, syncedOnly bool) (string, st
 			}
 		}
 	}
-	return fmt.Sprintf("crash at=%d vis=%s wal=%s torn=%s", rc.histOps, strings.Join(vis, ","), strings.Join(parts, "|"), t), class
+	// `class` so far says only that the durable state is outside the model's exactness condition
+	// (safeDurable). Which of the two known findings it is: a state where a record of an
+	// acknowledged batch is neither in the WAL nor covered by a completely visible generation is a
+	// *loss* and never a known finding; otherwise the surviving records are replayed out of write
+	// order (flush_window_replay_order) or a surviving part of an already flushed generation is
+	// replayed over its files (crash_inside_wal_removal).
+	window := class != ""
+	if window {
+		present := map[int]bool{}
+		for _, id := range order {
+			present[id] = true
+		}
+		covered := func(id int) bool {
+			for g := 1; g <= rc.flushNo; g++ {
+				if rc.genLo[g] <= id && id < rc.genHi[g] && full(g) {
+					return true
+				}
+			}
+			return false
+		}
+		lost := false
+		for id := 0; id < rc.acked; id++ {
+			if !present[id] && !covered(id) {
+				lost = true
+			}
+		}
+		sorted := append([]int{}, order...)
+		sort.Ints(sorted)
+		inOrder := true
+		for i := range order {
+			if order[i] != sorted[i] {
+				inOrder = false
+			}
+		}
+		switch {
+		case lost:
+			class = ""
+		case !inOrder:
+			class = "flush_window_replay_order"
+		default:
+			class = "crash_inside_wal_removal"
+		}
+	}
+	return fmt.Sprintf("crash at=%d vis=%s wal=%s torn=%s", rc.histOps, strings.Join(vis, ","), strings.Join(parts, "|"), t), window, class
 }
 
 // Before lets the history pause a flush right before one of its data-file / WAL-removal
@@ -429,6 +497,18 @@ func (rc *recorder) Before(op, p, p2 string, n int64) {
 	}
 	rel := strings.TrimPrefix(strings.TrimPrefix(p, rc.root), "/")
 	rc.mu.Lock()
+	if x := rc.mstNo(rel); strings.HasPrefix(rel, "data/") && x > 0 && rc.gateBlocked(x) {
+		t := time.AfterFunc(30*time.Second, func() {
+			rc.mu.Lock()
+			rc.gateOff = true // never hang: give the order up (counted)
+			rc.cond.Broadcast()
+			rc.mu.Unlock()
+		})
+		for rc.gateBlocked(x) {
+			rc.cond.Wait()
+		}
+		t.Stop()
+	}
 	armed := rc.pauseAt > 0 && !rc.inWrite
 	hit := false
 	if armed && (strings.HasPrefix(rel, "data/") || (strings.HasPrefix(rel, "wal/") && op == "remove")) && op != "sync" && op != "mkdir" {
@@ -481,6 +561,7 @@ func (rc *recorder) After(op, p, p2 string, n int64, err error) {
 		rc.genFiles[rc.flushNo] = append(rc.genFiles[rc.flushNo], final)
 		rc.genOf[final] = rc.flushNo
 		rc.fileLen[rel], rc.syncedLen[rel] = 0, 0
+		rc.initCnt[rc.mstNo(rel)]++
 	}
 	if isData && op == "rename" {
 		rel2 := strings.TrimPrefix(strings.TrimPrefix(p2, rc.root), "/")
@@ -489,6 +570,10 @@ func (rc *recorder) After(op, p, p2 string, n int64, err error) {
 			rc.orderViol = append(rc.orderViol, fmt.Sprintf("%s: data file %s renamed into place with %d of its %d bytes covered by a Sync", rc.phase, rel, rc.syncedLen[rel], rc.fileLen[rel]))
 		}
 		rc.fileLen[rel2], rc.syncedLen[rel2] = rc.fileLen[rel], rc.syncedLen[rel]
+		if strings.HasSuffix(rel, ".tssp.init") {
+			rc.renDone[rc.mstNo(rel)]++
+			rc.cond.Broadcast()
+		}
 	}
 	if op == "remove" {
 		if isWal && rc.flushNo > 0 {
@@ -526,8 +611,8 @@ func (rc *recorder) After(op, p, p2 string, n int64, err error) {
 			}
 			tornID = rc.inflight
 		}
-		line, class := rc.durable(dst, tornID, false)
-		rc.images = append(rc.images, &image{dir: dst, acked: rc.acked, inflight: rc.inflight, torn: torn,
+		line, window, class := rc.durable(dst, tornID, false)
+		rc.images = append(rc.images, &image{dir: dst, acked: rc.acked, inflight: rc.inflight, torn: torn, window: window,
 			desc: fmt.Sprintf("%s; after %s %s %s", rc.phase, op, rel, desc), opLine: line, class: class})
 	}
 	// the disk after a power loss at this instant: every WAL file cut back to its synced length
@@ -556,8 +641,8 @@ func (rc *recorder) After(op, p, p2 string, n int64, err error) {
 				os.Truncate(filepath.Join(dst, f), rc.syncedLen[f])
 			}
 		}
-		line, class := rc.durable(dst, -1, true)
-		rc.images = append(rc.images, &image{dir: dst, acked: rc.acked, inflight: rc.inflight, pl: true,
+		line, window, class := rc.durable(dst, -1, true)
+		rc.images = append(rc.images, &image{dir: dst, acked: rc.acked, inflight: rc.inflight, pl: true, window: window,
 			desc: fmt.Sprintf("%s; after %s %s (power loss: WAL files cut back to their synced length)", rc.phase, op, rel), opLine: line, class: class})
 	}
 	take(false, 0, "")
@@ -669,6 +754,13 @@ func dumpAll(sh *engine.VerifShard) (string, error) {
 	return out, nil
 }
 
+// Every shard the harness opens has the shard id 1 and registers with the process-wide compactor;
+// recoveries run in parallel. Compactor.UnregisterShard (called by DetachFromCompactor and by
+// Close) is check-then-act per shard id, so two of them at once would sign one registration off
+// twice ("negative WaitGroup counter"). A store never has two shards with one id; here the calls
+// are serialised.
+var compMu sync.Mutex
+
 func recoverImage(img *image, nParts int) string {
 	var text string
 	var err error
@@ -678,10 +770,15 @@ func recoverImage(img *image, nParts int) string {
 		if err != nil {
 			return
 		}
+		compMu.Lock()
 		sh.DetachFromCompactor()
+		compMu.Unlock()
 		sh.FlushIndex()
 		text, err = dumpAll(sh)
-		if cerr := sh.Close(); err == nil && cerr != nil {
+		compMu.Lock()
+		cerr := sh.Close()
+		compMu.Unlock()
+		if err == nil && cerr != nil {
 			err = cerr
 		}
 	})
@@ -704,7 +801,9 @@ func runHistory(c *hx.Ctx, r *hx.Rng, idx int, workers int) error {
 	rc := &recorder{root: root, imgRoot: imgRoot, inflight: -1, walRecs: map[string][]int{}, genOf: map[string]int{},
 		genLo: map[int]int{}, genHi: map[int]int{}, genFiles: map[int][]string{}, nParts: nParts, r: r.Fork(), tornPct: 50,
 		paused: make(chan struct{}), resume: make(chan struct{}),
-		fileLen: map[string]int64{}, syncedLen: map[string]int64{}, walEnds: map[string][]int64{}, msts: mstNames}
+		fileLen: map[string]int64{}, syncedLen: map[string]int64{}, walEnds: map[string][]int64{}, msts: mstNames,
+		initCnt: map[int]int{}, renDone: map[int]int{}}
+	rc.cond = sync.NewCond(&rc.mu)
 	// wal-sync-interval: 0 (every append synced before the acknowledgement) or an interval that never
 	// fires during the history (only the switch of a flush syncs): the sync events are then a
 	// function of the history, not of the wall clock
@@ -719,7 +818,9 @@ func runHistory(c *hx.Ctx, r *hx.Rng, idx int, workers int) error {
 	if err != nil {
 		return err
 	}
+	compMu.Lock()
 	sh.DetachFromCompactor()
+	compMu.Unlock()
 	sh.StopIndexBackground()
 	if rc.sync0 {
 		sh.SetWalSyncInterval(0)
@@ -747,11 +848,12 @@ func runHistory(c *hx.Ctx, r *hx.Rng, idx int, workers int) error {
 		c.Count("history:aged-wal-sequence")
 	}
 
+	var lastRaw []engx.Row // the previous batch with the shard's own series numbers
 	doWrite := func(i int) error {
 		rows := genBatch(r, hiWater, nMst)
 		if warm > 0 && len(batches) > 0 && r.Chance(60) {
 			// overwrite a key of the previous batch: the order of replay then matters
-			prev := batches[len(batches)-1]
+			prev := lastRaw
 			src := prev[r.Intn(len(prev))]
 			rows[0].Mst, rows[0].Series, rows[0].T = src.Mst, src.Series, src.T
 			// one field of the overwritten row (the first in name order: iterating the map would make the
@@ -792,6 +894,7 @@ func runHistory(c *hx.Ctx, r *hx.Rng, idx int, workers int) error {
 		rc.phase = fmt.Sprintf("history %d op %d write #%d (%s)", idx, i, len(batches), kinds)
 		rc.mu.Unlock()
 		batches = append(batches, orows)
+		lastRaw = rows
 		wl := c.Emit("write "+strings.Join(ts, ";"), "ack")
 		var werr error
 		perr := hx.Safe(func() { werr = sh.Write(engx.ToInflux(rows)) })
@@ -855,6 +958,20 @@ func runHistory(c *hx.Ctx, r *hx.Rng, idx int, workers int) error {
 		rc.histOps++
 		rc.genLo[rc.flushNo] = flushedTo
 		rc.genHi[rc.flushNo] = len(batches)
+		rc.flushMsts, rc.initCnt, rc.renDone = nil, map[int]int{}, map[int]int{}
+		for k := range mstNames {
+			has := false
+			for _, b := range batches[flushedTo:] {
+				for _, x := range b {
+					if x.Series/100 == k {
+						has = true
+					}
+				}
+			}
+			if has {
+				rc.flushMsts = append(rc.flushMsts, k)
+			}
+		}
 		interleave := (r.Chance(45) || (warm > 0 && r.Chance(80))) && len(batches) > flushedTo && i >= 2*warm
 		flushedTo = len(batches)
 		rc.phase = fmt.Sprintf("history %d op %d flush #%d (%s)", idx, i, rc.flushNo, kinds)
@@ -911,13 +1028,13 @@ func runHistory(c *hx.Ctx, r *hx.Rng, idx int, workers int) error {
 	rc.orderViol = nil
 	rc.mu.Unlock()
 	if panicked == "" {
-		if perr := hx.Safe(func() { sh.Close() }); perr != "" {
+		if perr := hx.Safe(func() { compMu.Lock(); defer compMu.Unlock(); sh.Close() }); perr != "" {
 			return fmt.Errorf("close failed: %s", perr)
 		}
 	} else {
 		// the shard may be left with locks held: close it if that ends soon, otherwise abandon it
 		closed := make(chan struct{})
-		go func() { hx.Safe(func() { sh.Close() }); close(closed) }()
+		go func() { hx.Safe(func() { compMu.Lock(); defer compMu.Unlock(); sh.Close() }); close(closed) }()
 		select {
 		case <-closed:
 		case <-time.After(10 * time.Second):
@@ -944,10 +1061,13 @@ func runHistory(c *hx.Ctx, r *hx.Rng, idx int, workers int) error {
 	}
 	close(ch)
 	wg.Wait()
+	if rc.gateOff {
+		c.Count("history:measurement-order-of-a-flush-not-enforced")
+	}
 	inFlushWindow := 0
 	for i, img := range imgs {
 		ansLine := answers[i]
-		if img.class != "" {
+		if img.window {
 			ansLine += " window" // the durable state is outside the model's exactness condition
 		}
 		line := c.Emit(img.opLine, ansLine)
@@ -977,8 +1097,12 @@ func runHistory(c *hx.Ctx, r *hx.Rng, idx int, workers int) error {
 		if strings.Contains(img.desc, "flush") {
 			inFlushWindow++
 		}
-		if img.class != "" {
-			c.Count("durable-state:" + img.class)
+		if img.window {
+			if img.class != "" {
+				c.Count("durable-state:" + img.class)
+			} else {
+				c.Count("durable-state:outside-the-exactness-condition,no-known-class")
+			}
 		}
 		if !ok {
 			c.Violation(line, img.class, fmt.Sprintf("%s: recovered %q, acknowledged state %q (acked=%d inflight=%d torn=%v)", img.desc, answers[i], specOf(batches, img.acked), img.acked, img.inflight, img.torn))
@@ -993,7 +1117,7 @@ func runHistory(c *hx.Ctx, r *hx.Rng, idx int, workers int) error {
 }
 
 func Run(c *hx.Ctx) error {
-	c.Stats.Rule = "random histories (write batches with overwrites / late data / partial fields, forced flushes; 1, 2 or 4 WAL partitions) on a real shard; a crash image (copy of the shard directory) is taken after every file-system mutation under wal/ and data/, every 6th mutation of the series index, plus torn variants of every WAL append; every image is recovered by reopening a shard on it and read back; a history is non-trivial when it overwrites a (series,time) and has crash points inside a flush; distinct by (op kinds, partitions)"
+	c.Stats.Rule = "random histories (write batches with overwrites / late data / partial fields, over one or two measurements; forced flushes with writes interleaved; 1, 2 or 4 WAL partitions; wal-sync-interval 0 or never firing) on a real shard; a crash image (copy of the shard directory) is taken after every file-system mutation under wal/ and data/, every 6th mutation of the series index, plus torn variants of every WAL append, plus power-loss variants (WAL files cut back to their synced length) wherever they differ; every image is recovered by reopening a shard on it and read back; the order append -> Sync -> acknowledgement (interval 0) and data-file write -> Sync -> rename -> WAL removal is checked on the observed trace; a history is non-trivial when it overwrites a (series,time) and has crash points inside a flush; distinct by (op kinds, partitions)"
 	n := c.Budget(25, 600)
 	r := hx.NewRng(c.Seed)
 	for i := 0; i < n; i++ {
